@@ -20,11 +20,21 @@
 
     composed-sexp VERSION FP TEALHEX SEXP…
         TEALHEX  the real TEAL text (hex of utf-8), SEXP… the program recipe
-      → `composed=true|false [WHY]`
+      → `composed=true|false|partial [thm=ref] original=true|false [WHY]`
         composed  `Check.validateComposed` answers `true`: the certificate check accepts, the
                   certificate's graphs are the generator's for the renamed program, the renamed
                   program is in the fragment — the hypotheses of
                   `Proofs.C02Compile.compile_correct_validated_prog` (scratch-slot convention only).
+        original  additionally `Check.renameOk` holds for the renaming that was applied
+                  (`Check.originalB … = true`, see `Proofs.CompileOriginal.originalB_eq`): the hypotheses of
+                  `Proofs.CompileOriginal.compile_correct_originalB[_ref]` — the theorem then speaks about
+                  the ORIGINAL program (this recipe), not about its renamed form.
+
+    c01-original VERSION TEALHEX SEXP…
+      → `original=true|false valid=true|false fragment=true|false renameOk=true|false`
+        original  `Check.originalMainB` (call-free programs): `validateMain` accepts, the renamed tree is in
+                  the fragment of `gen_correct`, `renameOk` holds for the discovered bindings — the
+                  hypotheses of `Proofs.CompileOriginal.compile_correct_originalMainB`.
 
   `answer` / `composedAnswer` are the same on already parsed inputs: `Driver.lean` can expose it for stored
   programs as `fragmentr PID VERSION FP` (the stored-program table lives there).
@@ -34,6 +44,7 @@ import PyTealV.Sexp
 import PyTealV.Recipe
 import PyTealV.Models.FragmentR
 import PyTealV.Check.ComposeProg
+import PyTealV.Check.RenameOk
 namespace PyTealV.Cmd.C02Gen
 open PyTealV PyTealV.Models.FragmentR
 
@@ -120,21 +131,44 @@ def composedWhy (p : Src.Prog) (P : Avm.Program) (version : Nat) (fp : Bool) : S
     s!"{why} fragment={showB (Check.fragmentOnCert fp p' c)} main={showB (Check.certMainOk version p' c)} subs={showB (Check.certSubsOk version fp p' c)} closed={showB (Check.certClosed c)}"
   | _, _ => ""
 
+/-- diagnostics: which part of `Check.renameOk` fails for the discovered bindings -/
+def renameWhy (p : Src.Prog) (P : Avm.Program) (version : Nat) (fp : Bool) : String :=
+  match Check.bindingsProg version fp p P with
+  | .ok bs =>
+    let f := Comp.applyBindings bs
+    let D := Check.varsP p
+    s!" renameOk[inj={showB (Check.injOnB f D)} fixes={showB (Check.fixesRequested f D)} main={showB (Check.dOk (Check.dkOf f p []) p.main)} subs=" ++
+      ",".intercalate (p.subs.map (fun sd => s!"{sd.id}:{showB (Check.dOk (Check.dkOf f p (refSlots sd)) sd.body)}")) ++
+      s!" vals={showB (p.subs.all (fun sd => (valSlots sd).all (fun v => !(allRefSlots p).contains v)))}]"
+  | .error e => " renameOk[bindings: " ++ e ++ "]"
+
 /-- `composed=true`: hypotheses of `compile_correct_validated_prog`; `composed=true thm=ref`: those of
     `compile_correct_validated_prog_ref` (by-reference discipline, both conventions);
     `composed=partial`: those of `compile_correct_validated_prog_dyn_partial` (run-time addressed
     slots outside the discipline, scratch convention) -/
 def composedAnswer (p : Src.Prog) (P : Avm.Program) (version : Nat) (fp : Bool) : String :=
+  -- `original`: `Check.originalB` = `renameOkB && composedB` (`Proofs.CompileOriginal.originalB_eq`)
+  let orig (composed : Bool) : String :=
+    let ro := Check.renameOkB version fp p P
+    " original=" ++ showB (composed && ro) ++ (if composed && !ro then renameWhy p P version fp else "")
   match Check.validateComposed version fp p P with
-  | .ok true => "composed=true"
+  | .ok true => "composed=true" ++ orig true
   | .ok false =>
     (match Check.validateComposed version fp p P true true with
-     | .ok true => "composed=true thm=ref"
+     | .ok true => "composed=true thm=ref" ++ orig true
      | _ =>
        (match (if fp then (.ok false : Except String Bool) else Check.validateComposed version false p P true) with
-        | .ok true => "composed=partial"
-        | _ => "composed=false" ++ composedWhy p P version fp))
-  | .error e => "composed=false " ++ (e.replace "\n" " ")
+        | .ok true => "composed=partial" ++ orig true
+        | _ => "composed=false" ++ orig false ++ composedWhy p P version fp))
+  | .error e => "composed=false" ++ orig false ++ " " ++ (e.replace "\n" " ")
+
+/-- C01 (call-free programs): the hypotheses of `compile_correct_originalMainB` -/
+def originalMainAnswer (p : Src.Prog) (P : Avm.Program) (version : Nat) : String :=
+  match Check.validateMain version p.main P with
+  | .ok r =>
+    let ro := Check.renameOk (Comp.applyBindings r.bindings) { subs := [], main := p.main }
+    s!"original={showB (Check.originalMainB version p.main P)} valid=true fragment={showB r.inFragment} renameOk={showB ro}"
+  | .error _ => "original=false valid=false fragment=false renameOk=false"
 
 def composedSexp : List String → String
   | ver :: fp :: h :: rest =>
@@ -150,5 +184,20 @@ def composedSexp : List String → String
     | _, none, _ => "perr bad hex"
     | _, _, none => "perr bad recipe"
   | _ => "perr usage: composed-sexp VERSION FP TEALHEX SEXP"
+
+def originalMainSexp : List String → String
+  | ver :: h :: rest =>
+    match Util.parseNat ver, Util.unhex h, (Sexp.parse (" ".intercalate rest)).bind Recipe.prog? with
+    | some v, some bs, some p =>
+      (match String.fromUTF8? (ByteArray.mk bs.toArray) with
+       | some text =>
+         let r := Avm.parse [] text
+         if r.errors.isEmpty then originalMainAnswer p r.prog v
+         else "perr " ++ " | ".intercalate r.errors
+       | none => "perr not utf-8")
+    | none, _, _ => "perr bad version"
+    | _, none, _ => "perr bad hex"
+    | _, _, none => "perr bad recipe"
+  | _ => "perr usage: c01-original VERSION TEALHEX SEXP"
 
 end PyTealV.Cmd.C02Gen
